@@ -145,7 +145,7 @@ def call_repo(ex, qual, recv, args, kw, st, node, ctor=False):
     if ex.depth > 6:
         raise SymErr('inline depth')
     from .contract import Contract
-    stub = callee if callee is not None else Contract()
+    stub = callee if callee is not None else _inline_stub(ex.c, qual)
     sub = Exec(fsrc, stub, ex.reg, ex.obls, prefix=ex.prefix + '>' + qual.split(':')[1], depth=ex.depth + 1)
     sub._obn = ex._obn
     callst = State()
@@ -159,6 +159,23 @@ def call_repo(ex, qual, recv, args, kw, st, node, ctor=False):
     if o.kind == 'raise':
         return RaisedValue(o.val.exc)
     return o.val
+
+
+_HOOKS = ('call_hook', 'contains_model', 'dict_model', 'builtin_model', 'method_model', 'join_model', 'with_model',
+          'inline', 'ignore_calls', 'ghost_args', 'assume_clauses', 'subclass_of', 'no_merge', 'name_locals', 'attr_model')
+
+
+def _inline_stub(parent, qual):
+    """Contract object for an inlined callee without a contract of its own: the caller's modelling hooks apply inside
+    the callee as well; loop specifications come from the caller's `inline_loops[qual]`."""
+    from .contract import Contract
+    stub = Contract()
+    for h in _HOOKS:
+        if hasattr(parent, h):
+            setattr(stub, h, getattr(parent, h))
+    stub.loops = getattr(parent, 'inline_loops', {}).get(qual, {})
+    stub.inline_loops = getattr(parent, 'inline_loops', {})
+    return stub
 
 
 def apply_contract(ex, callee, bound, st, node):
